@@ -377,8 +377,8 @@ type class struct {
 
 // inbound and outbound channels draw their names from disjoint pools and every
 // declaration list has distinct names, so channel names are unique within a task
-// (the theorems' namesDistinct); a channel's alias is derived from its name, so
-// aliases are unique within a task as well.
+// (the theorems' namesDistinct); a channel's alias is mostly derived from its name,
+// one in three is the common "g_shared" (alias redefinition within a task and across tasks).
 var inNames = []string{"data", "ctl", "mon", "raw", "sync"}
 var outNames = []string{"in", "feed", "dpl", "src", "aux"}
 var transports = []string{"", "default", "zeromq", "nanomsg", "shmem", "zeromq", "shmem"}
@@ -437,6 +437,9 @@ func genIn(r *rng.R, name string, st *stats, aliasP int) chIn {
 	}
 	if r.N(100) < aliasP {
 		c.global = "g_" + name
+		if r.P(1, 3) {
+			c.global = "g_shared" // may collide with another channel of the same task
+		}
 		st.aliasUse = true
 	}
 	return c
@@ -575,21 +578,21 @@ func genCase(r *rng.R, maxTasks int) fw.Case {
 	target := func() string {
 		x := r.N(100)
 		switch {
-		case x < 66 && len(keys) > 0:
+		case x < 70 && len(keys) > 0:
 			return rng.Pick(r, keys)
-		case x < 78 && len(aliases) > 0:
+		case x < 80 && len(aliases) > 0:
 			st.aliasOut = true
 			return rng.Pick(r, aliases)
-		case x < 86:
+		case x < 88:
 			st.explicitOut = true
 			return fmt.Sprintf("tcp://%s:%d", rng.Pick(r, []string{"far.host", "10.0.0.7", "flp1"}), 1000+r.N(60000))
-		case x < 90:
+		case x < 92:
 			st.explicitOut = true
 			return "ipc://@named-" + fmt.Sprint(r.N(5))
-		case x < 93:
+		case x < 94:
 			st.badOut = true
 			return rng.Pick(r, tasks).path + ":" + rng.Pick(r, []string{"nochan", "", "data2"})
-		case x < 95:
+		case x < 96:
 			st.badOut = true
 			return rng.Pick(r, tasks).path // path without a channel
 		case x < 97:
@@ -615,7 +618,7 @@ func genCase(r *rng.R, maxTasks int) fw.Case {
 	// role-level outbound declarations: mostly complete the class's connect list with targets
 	for _, t := range tasks {
 		for _, cc := range classOf(t.cls).conn {
-			if !r.P(9, 10) {
+			if !r.P(19, 20) {
 				continue // left without a target: this configuration must fail
 			}
 			at := t
@@ -756,8 +759,8 @@ func init() {
 			"contiguous or fragmented port ranges, some starting below 9000), 1..3 task templates (fairmq/direct) with 0..3 bind and 0..2 connect " +
 			"declarations, bind/connect declarations at aggregator and task-role level overriding the template's, all four transports or none, " +
 			"tcp/ipc/absent addressing, global aliases (shared templates make them collide), inbound channels with static/invalid targets, outbound " +
-			"targets = advertised path:channel 66% / alias 12% / explicit tcp:// ipc:// 12% / near-miss, unknown or empty 10%, template-level connect " +
-			"left without a role-level target 10%; every case runs the real YAML loaders, GenerateTaskDescriptors, makeTaskForMesosResources and " +
+			"targets = advertised path:channel 70% / alias 10% / explicit tcp:// ipc:// 12% / near-miss, unknown or empty 8%, template-level connect " +
+			"left without a role-level target 5%; every case runs the real YAML loaders, GenerateTaskDescriptors, makeTaskForMesosResources and " +
 			"configureTasks; non-trivial = >=2 tasks launched and (configuration sent with >=1 bind and >=1 connect entry, or rejected as " +
 			"unmatched / alias conflict); distinct by input text",
 		Shrink:  shrinkCands,
